@@ -145,7 +145,7 @@ func checkResponse(call apiCall, res json.RawMessage, st *heightState, committed
 				return fmt.Sprintf("get-pegnet-rates(latest) %s = %d, committed height %d recorded %d", t, v, committed, st.Rates[t])
 			}
 		}
-	case "get-transactions":
+	case "get-transactions", "get-transaction":
 		var r struct {
 			Actions []struct {
 				Height   int64 `json:"height"`
@@ -410,7 +410,7 @@ func genAPICalls(t *rapid.T, sc *Scenario, actors []Actor, hashes []string) []ap
 	n := rapid.IntRange(1, 3).Draw(t, "ncalls")
 	var out []apiCall
 	for i := 0; i < n; i++ {
-		switch rapid.IntRange(0, 12).Draw(t, "method") {
+		switch rapid.IntRange(0, 14).Draw(t, "method") {
 		case 0, 1:
 			out = append(out, apiCall{Method: "get-sync-status"})
 		case 2:
@@ -437,8 +437,14 @@ func genAPICalls(t *rapid.T, sc *Scenario, actors []Actor, hashes []string) []ap
 				"transfer": true, "conversion": true, "coinbase": true, "burn": true, "desc": true}})
 		case 11:
 			out = append(out, apiCall{Method: "get-graded", Params: map[string]interface{}{"height": rapid.SampledFrom([]string{"next", "committed"}).Draw(t, "gh")}})
-		default:
+		case 12:
 			out = append(out, apiCall{Method: "get-bank", Params: map[string]interface{}{"height": rapid.SampledFrom([]string{"next", "committed"}).Draw(t, "bh")}})
+		case 13:
+			if len(hashes) > 0 {
+				out = append(out, apiCall{Method: "get-transaction", Params: map[string]interface{}{"txid": "0-" + hashes[rapid.IntRange(0, len(hashes)-1).Draw(t, "txidHash")]}})
+			}
+		default:
+			out = append(out, apiCall{Method: "properties"})
 		}
 		// now and then the client hangs up in the middle of the handler
 		if len(out) > 0 && rapid.IntRange(0, 4).Draw(t, "abort") == 0 {
@@ -719,7 +725,12 @@ func TestC18(t *testing.T) {
 				{Method: "get-rich-list", Params: map[string]interface{}{"asset": "PEG", "count": 10}},
 				{Method: "get-global-rich-list", Params: map[string]interface{}{"count": 10}},
 				{Method: "get-pegnet-rates", Params: map[string]interface{}{"height": 0}},
-				{Method: "get-pegnet-balances", Params: map[string]interface{}{"address": NewActor(1, false).FA()}}}
+				{Method: "get-pegnet-balances", Params: map[string]interface{}{"address": NewActor(1, false).FA()}},
+				{Method: "get-rich-list", Params: map[string]interface{}{"asset": "pUSD", "count": 25}},
+				{Method: "get-transactions", Params: map[string]interface{}{"address": NewActor(0, false).FA(), "transfer": true, "conversion": true, "coinbase": true, "burn": true}},
+				{Method: "get-graded", Params: map[string]interface{}{"height": 0}},
+				{Method: "get-miner-distribution", Params: map[string]interface{}{"start": 0, "stop": -5}},
+				{Method: "get-bank", Params: map[string]interface{}{"height": 0}}}
 			startWorkers := func() {
 				for wk := 0; wk < 6; wk++ {
 					wg.Add(1)
